@@ -101,6 +101,16 @@ def identity(d: Dict[str, Any]) -> Tuple:
     return base + (d['next'], tuple(sorted(d['types'])))
 
 
+class _KnownAnswers:
+    """stands in for an incoming query: suppressed_by() only asks it for its answers"""
+
+    def __init__(self, records: List[Any]) -> None:
+        self._records = records
+
+    def answers(self) -> List[Any]:
+        return self._records
+
+
 def check_pair(da: Dict[str, Any], db: Dict[str, Any]) -> Dict[str, Any]:
     from zeroconf import DNSCache
     from zeroconf._dns import DNSRRSet
@@ -131,6 +141,13 @@ def check_pair(da: Dict[str, Any], db: Dict[str, Any]) -> Dict[str, Any]:
         if same and sup != (da['ttl'] > db['ttl'] / 2):
             raise Violation('known-answer suppression of the same record disagrees with the half-TTL rule', det,
                             tag='suppress-ttl')
+        # the other entry point to the same rule: record.suppressed_by(incoming message), which DNSOutgoing.add_answer uses
+        sup2 = b.suppressed_by(_KnownAnswers([a]))
+        if not same and sup2:
+            raise Violation('b.suppressed_by(message listing a) is true for a different record', det, tag='suppressed_by')
+        if same and sup2 != (da['ttl'] > db['ttl'] / 2):
+            raise Violation('b.suppressed_by(message listing the same record) disagrees with the half-TTL rule', det,
+                            tag='suppressed_by-ttl')
         cache = DNSCache()
         cache._async_add(a)  # the cache's own add path (what the record manager calls)
         got = cache.get(b)
